@@ -107,6 +107,11 @@ def run_property(prop: str, tier: str) -> int:
     for ob, k in known_hits:
         if k["key"] not in printed:
             printed.add(k["key"])
+            # a known finding is reported only while it still reproduces on the real code
+            if ob.witness and ob.witness.get("family"):
+                _path, reproduced, _out = write_replay(prop, ob)
+                if not reproduced:
+                    continue
             print(f"KNOWN-FINDING: property={prop} {k['what']}")
     vio_out = []
     for ob in violations[:12]:
